@@ -71,6 +71,8 @@ def _close_cases():
 @contract("Stream.close", cases=_close_cases(), props={"*": ("C01",)})
 def stream_close(it, self):
     h = self.f["_obj"]
+    if isinstance(self.f["_pos"], VDyn):
+        raise Undecided("Stream.close on a generic stream")
     if isinstance(self.f["_pos"], VNone):
         h.f["closed"] = True
     else:
@@ -86,10 +88,13 @@ def consume(it, stream):
     if h.f["closed"]:
         raise_("ValueError")
     content = stream_content(it, stream)
-    if isinstance(stream.f["_pos"], VNone):
+    rp = stream.f["_pos"]
+    if isinstance(rp, VNone):
         h.f["pos"] = z3.Length(content)
+    elif isinstance(rp, VDyn):
+        h.f["pos"] = z3.If(rp.tag == T_NONE, z3.Length(content), rp.i)
     else:
-        h.f["pos"] = stream.f["_pos"].term
+        h.f["pos"] = rp.term
     return content
 
 
@@ -136,17 +141,35 @@ def _tmp_cases():
     return out
 
 
+def digest_map(it, add, ca, content):
+    """The hex_digests map of C02 as a function: keys = the five defaults plus the additional
+    and checksum algorithms of this very call (when they are not defaults), each mapped to the
+    true digest of the content.  No other state enters."""
+    a_str, a = dyn_str(add)
+    c_str, c = dyn_str(ca)
+
+    def has(k):
+        return z3.Or(*([k == z3.StringVal(n) for n in T.DEFAULT5]
+                       + [z3.And(a_str, k == a, in_other(a)), z3.And(c_str, k == c, in_other(c))]))
+
+    def get(k):
+        return VStr(T.Hd(k, content))
+    return VObj("symdict", fn_has=has, fn_get=get)
+
+
 @contract("FileHashStore._write_to_tmp_file_and_get_hex_digests", cases=_tmp_cases(),
           props={"*": ("C01", "C02", "C09")})
 def _write_to_tmp(it, self, stream, additional_algorithm=NONE, checksum_algorithm=NONE):
-    algs = _refine_algorithm_list(it, self, additional_algorithm, checksum_algorithm)
+    for v in (checksum_algorithm, additional_algorithm):
+        if it.ctx.branch(dyn_str(v)[0]):
+            clean_of(it, VStr(dyn_str(v)[1]))
     st = it.ctx.st
     st.dirs = z3.Store(st.dirs, ANCHOR_DIR[A_OBJ_TMP], TRUE)
     name = T.fresh_tmp(st.fs, z3.IntVal(T.K_TMP_OBJ))
     loc = T.loc(T.K_TMP_OBJ, name)
     content = consume(it, stream)
     fsput(it, loc, T.Data(content))
-    hd = VDict([[TRUE, a, VStr(T.Hd(a.term, content))] for a in algs.items])
+    hd = digest_map(it, additional_algorithm, checksum_algorithm, content)
     return VTuple([hd, VPath(A_OBJ_TMP, (("str", name),), pathobj=False),
                    VInt(z3.Length(content))])
 
@@ -155,7 +178,9 @@ def _write_to_tmp(it, self, stream, additional_algorithm=NONE, checksum_algorith
 # validation verdict
 # ---------------------------------------------------------------------------------------------------
 def digest_lookup(it, hd, key):
-    """(found, value) of key in a digest dictionary with concrete skeleton."""
+    """(found, value) of key in a digest dictionary."""
+    if isinstance(hd, VObj) and hd.cls == "symdict":
+        return hd.f["fn_has"](key), hd.f["fn_get"](key).term
     found = z3.Or(FALSE, *[z3.And(g, k.term == key) for g, k, v in hd.entries])
     val = T.EMPTY
     for g, k, v in reversed(hd.entries):
@@ -195,18 +220,17 @@ def _voi_case(pid_none):
         it.ctx.assume(z3.Implies(size.tag == T_INT, size.i >= 1))
         add = _algo_arg(it, "additional")
         if pid_none:
-            algs = _refine_algorithm_list(it, s, NONE, NONE)
+            hd = digest_map(it, NONE, NONE, content)
             pid = NONE
             tmp = NONE
             it.ctx.assume(fsget(it, obj_loc(cid)) == T.Data(content))
         else:
-            algs = _refine_algorithm_list(it, s, add, ca)
+            hd = digest_map(it, add, ca, content)
             pid = sym_str("pid")
             name = z3.String("tmpname")
             tl = T.loc(T.K_TMP_OBJ, name)
             it.ctx.assume(fsget(it, tl) == T.Data(content))
             tmp = VPath(A_OBJ_TMP, (("str", name),), pathobj=False)
-        hd = VDict([[TRUE, a, VStr(T.Hd(a.term, content))] for a in algs.items])
         return [s, pid, cs, ca, VStr("objects"), hd, tmp, VInt(z3.Length(content)), size]
     return f
 
@@ -246,19 +270,15 @@ def _validation_args(it):
 
 
 def _move_cases():
-    out = {}
-    for k in DATA_OK:
-        def with_pid(it, k=k):
-            s = make_self(it)
-            pid = sym_str("pid")
-            it.ctx.assume(T.wsfree(pid.term))
-            return [s, pid, _stream_obj(it, k)] + list(_validation_args(it))
+    def with_pid(it):
+        s = make_self(it)
+        pid = sym_str("pid")
+        it.ctx.assume(T.wsfree(pid.term))
+        return [s, pid, generic_stream(it)] + list(_validation_args(it))
 
-        def no_pid(it, k=k):
-            return [make_self(it), NONE, _stream_obj(it, k), NONE, NONE, NONE, NONE]
-        out[k + ",pid"] = with_pid
-        out[k + ",no pid"] = no_pid
-    return out
+    def no_pid(it):
+        return [make_self(it), NONE, generic_stream(it), NONE, NONE, NONE, NONE]
+    return {"pid": with_pid, "no pid": no_pid}
 
 
 def store_bytes(it, self, pid, stream, add, cs, ca, size):
@@ -286,3 +306,309 @@ def _move_and_get_checksums(it, self, pid, stream, additional_algorithm=NONE, ch
                             checksum_algorithm=NONE, file_size_to_validate=NONE):
     return store_bytes(it, self, pid, stream, additional_algorithm, checksum, checksum_algorithm,
                        file_size_to_validate)
+
+
+# ---------------------------------------------------------------------------------------------------
+# argument checking of store_object
+# ---------------------------------------------------------------------------------------------------
+@contract("FileHashStore._check_arg_algorithms_and_checksum",
+          cases={"any": lambda it: [make_self(it), opt_str(it, "additional_algorithm"),
+                                    opt_str(it, "checksum"), opt_str(it, "checksum_algorithm")]},
+          props={"*": ("C17", "C06", "C02")})
+def _check_arg_algorithms_and_checksum(it, self, additional_algorithm, checksum,
+                                       checksum_algorithm):
+    a_str, a = dyn_str(additional_algorithm)
+    add2 = NONE
+    if it.ctx.branch(z3.And(a_str, a != self.f["algorithm"].term)):
+        add2 = clean_of(it, VStr(a))
+    ca2 = NONE
+    if it.ctx.branch(z3.Not(dyn_is_none(checksum))):
+        checkers._check_string(it, checksum_algorithm, VStr("checksum_algorithm"))
+    if it.ctx.branch(z3.Not(dyn_is_none(checksum_algorithm))):
+        checkers._check_string(it, checksum, VStr("checksum"))
+        ca2 = clean_of(it, VStr(dyn_str(checksum_algorithm)[1]))
+    return VTuple([add2, ca2])
+
+
+# ---------------------------------------------------------------------------------------------------
+# store
+# ---------------------------------------------------------------------------------------------------
+def generic_stream(it):
+    """A Stream over any accepted source: the kinds only differ in how Stream.__init__ obtains
+    the handle and the restore offset, which is all the callers of the write loop depend on."""
+    content = z3.String("stream_content")
+    pos = dyn(it, "stream_restore_pos", (T_NONE, T_INT))
+    it.ctx.assume(z3.Implies(pos.tag == T_INT, z3.And(pos.i >= 0, pos.i <= z3.Length(content))))
+    h = VObj("file", loc=None, content=content, mode="r", binary=True, pos=z3.Int("stream_pos"),
+             closed=False, noname=True, namev=NONE, kind="user")
+    bs = z3.Int("bufsize")
+    it.ctx.assume(bs >= 1)
+    return VObj("Stream", _obj=h, _pos=pos, _buffer_size=VInt(bs))
+
+
+def store_validated(it, self, pid, data, add, cs, ca, size, pid_label=None):
+    stream = VObj("Stream")
+    stream_init(it, stream, data)
+    try:
+        r = store_bytes(it, self, pid, stream, add, cs, ca, size)
+    finally:
+        stream_close(it, stream)
+    c, n, hd = r.items
+    return VObj("ObjectMetadata", pid=pid_label if pid_label is not None else pid, cid=c,
+                obj_size=n, hex_digests=hd)
+
+
+def _sav_cases():
+    out = {}
+    for k, f in data_cases().items():
+        if k not in DATA_OK:
+            continue
+
+        def mk(it, f=f):
+            s = make_self(it)
+            pid = sym_str("pid")
+            it.ctx.assume(T.wsfree(pid.term))
+            return [s, pid, f(it)] + list(_validation_args(it))
+        out[k] = mk
+    return out
+
+
+@contract("FileHashStore._store_and_validate_data", cases=_sav_cases(),
+          props={"*": ("C01", "C02", "C06")})
+def _store_and_validate_data(it, self, pid, file, additional_algorithm=NONE, checksum=NONE,
+                             checksum_algorithm=NONE, file_size_to_validate=NONE):
+    return store_validated(it, self, pid, file, additional_algorithm, checksum,
+                           checksum_algorithm, file_size_to_validate)
+
+
+@contract("FileHashStore._store_data_only",
+          cases={k: (lambda f: lambda it: [make_self(it), f(it)])(f)
+                 for k, f in data_cases().items() if k in DATA_OK},
+          props={"*": ("C01", "C02", "C19")})
+def _store_data_only(it, self, data):
+    return store_validated(it, self, NONE, data, NONE, NONE, NONE, NONE,
+                           pid_label=VStr("HashStoreNoPid"))
+
+
+def _store_cases():
+    out = {}
+    for k, f in data_cases().items():
+        def mk(it, f=f):
+            s = make_self(it)
+            return [s, opt_str(it, "pid"), f(it), opt_str(it, "additional_algorithm"),
+                    opt_str(it, "checksum"), opt_str(it, "checksum_algorithm"),
+                    dyn(it, "expected_object_size", (T_NONE, T_INT, T_STR, T_OTHER))]
+        out[k] = mk
+    return out
+
+
+def store_object_pre(it, self, pid=NONE, data=NONE, additional_algorithm=NONE, checksum=NONE,
+                     checksum_algorithm=NONE, expected_object_size=NONE):
+    st = it.ctx.st
+    isstr, p = dyn_str(pid)
+    pre = [("no-lock-held-by-caller", z3.BoolVal(not st.held))]
+    for c in LOCK_CLASSES:
+        pre.append((f"own-{c}-empty", st.own[c] == T.NOLOCKS))
+    if isinstance(pid, VNone) or True:
+        pre.append(("one-argument-form", z3.Implies(
+            dyn_is_none(pid), z3.And(dyn_is_none(additional_algorithm), dyn_is_none(checksum),
+                                     dyn_is_none(checksum_algorithm),
+                                     dyn_is_none(expected_object_size)))))
+    return pre
+
+
+@contract("FileHashStore.store_object", cases=_store_cases(), pre=store_object_pre,
+          props={"*": ("C01", "C02", "C03", "C05", "C06", "C17", "C19", "C08")})
+def store_object(it, self, pid=NONE, data=NONE, additional_algorithm=NONE, checksum=NONE,
+                 checksum_algorithm=NONE, expected_object_size=NONE):
+    ctx = it.ctx
+    if ctx.branch(dyn_is_none(pid)):
+        checkers._check_arg_data(it, data)
+        return _store_data_only(it, self, data)
+    checkers._check_string(it, pid, VStr("pid"))
+    checkers._check_arg_data(it, data)
+    checkers._check_integer(it, expected_object_size)
+    add2, ca2 = _check_arg_algorithms_and_checksum(it, self, additional_algorithm, checksum,
+                                                   checksum_algorithm).items
+    p = str_of(it, pid)
+    if ctx.branch(locked(it, "objpid", p)):
+        raise_("StoreObjectForPidAlreadyInProgress")
+    acquire(it, "objpid", p)
+    try:
+        om = store_validated(it, self, VStr(p), data, add2, checksum, ca2, expected_object_size)
+        refs._store_hashstore_refs_files(it, self, VStr(p), om.f["cid"])
+    finally:
+        release(it, "objpid", p)
+    om.f["pid"] = pid
+    return om
+
+
+# ---------------------------------------------------------------------------------------------------
+# retrieve / digest
+# ---------------------------------------------------------------------------------------------------
+def open_obj(it, c):
+    loc = obj_loc(c)
+    if it.ctx.branch(T.is_Absent(fsget(it, loc))):
+        raise_("FileNotFoundError")
+    h = VObj("file", loc=loc, mode="r", binary=True, pos=z3.IntVal(0), closed=False,
+             namev=VPath(A_OBJECTS, (("shard", c),)), kind="real")
+    it.ctx.__dict__.setdefault("handles", []).append(h)
+    return h
+
+
+@contract("FileHashStore.retrieve_object", cases={"any pid": refs._pid_case},
+          props={"*": ("C01", "C04", "C17")})
+def retrieve_object(it, self, pid):
+    d = refs._find_object(it, self, pid)
+    c = d.entries[0][2].term
+    return open_obj(it, c)
+
+
+@contract("FileHashStore.get_hex_digest",
+          cases={"any": lambda it: [make_self(it), opt_str(it, "pid"), opt_str(it, "algorithm")]},
+          compare=("outcome", "result", "fs", "locks", "self"),
+          props={"*": ("C02", "C17")})
+def get_hex_digest(it, self, pid, algorithm):
+    checkers._check_string(it, pid, VStr("pid"))
+    checkers._check_string(it, algorithm, VStr("algorithm"))
+    a = clean_of(it, VStr(str_of(it, algorithm)))
+    d = refs._find_object(it, self, pid)
+    c = d.entries[0][2].term
+    content = T.as_text(fsget(it, obj_loc(c)))
+    return VStr(T.Hd(a.term, content))
+
+
+# ---------------------------------------------------------------------------------------------------
+# delete
+# ---------------------------------------------------------------------------------------------------
+def clear_meta_dir(it, self, p):
+    """Remove every file (documents and deletion-marker leftovers) of pid p's metadata directory."""
+    d = H(self, p)
+    fs = it.ctx.st.fs
+    x = z3.Const("x!loc", T.Loc)
+    it.ctx.st.fs = z3.Lambda([x], z3.If(z3.And(T.l_kind(x) == T.K_META, T.l_k1(x) == d),
+                                        T.Absent, z3.Select(fs, x)))
+
+
+def untag_lines(it, c, p):
+    """Remove p from c's list (whole-line); returns the emptiness condition of the new list."""
+    cl = cidref_loc(c)
+    m = T.as_lines(fsget(it, cl))
+    m2 = z3.Store(m, p, z3.IntVal(0))
+    fsput(it, cl, T.LinesF(m2))
+    return m2 == T.NOLINES
+
+
+def delete_object_pre(it, self, pid):
+    st = it.ctx.st
+    isstr, p = dyn_str(pid)
+    ok = all(refs.LOCK_ORDER[c] < refs.LOCK_ORDER["objpid"] for c, _ in st.held)
+    d = H(self, p)
+    fs = st.fs
+    return [("no-lock-held-by-caller", z3.BoolVal(ok)),
+            ("pid-not-already-held", z3.Select(st.own["objpid"], p) == 0),
+            ("own-cid-empty", st.own["cid"] == T.NOLOCKS),
+            ("own-doc-empty", st.own["doc"] == T.NOLOCKS),
+            ("no-marker-leftovers", lambda x: z3.Implies(
+                z3.And(isstr, T.l_kind(x) == T.K_META, T.l_k1(x) == d, T.l_marks(x) >= 1),
+                T.is_Absent(z3.Select(fs, x))))]
+
+
+@contract("FileHashStore.delete_object", cases={"any pid": refs._pid_case}, pre=delete_object_pre,
+          props={"*": ("C03", "C04", "C05", "C08", "C11", "C17")})
+def delete_object(it, self, pid):
+    ctx = it.ctx
+    checkers._check_string(it, pid, VStr("pid"))
+    p = str_of(it, pid)
+    kind, c = classify(it, self, p)
+    if kind == "unbound":
+        raise_("PidRefsDoesNotExist")
+    pl = pidref_loc(self, p)
+    fsput(it, pl, T.Absent)
+    fsput(it, T.mark(pl), T.Absent)
+    if kind in ("bound", "object-missing"):
+        empty = untag_lines(it, c, p)
+        if ctx.branch(empty):
+            fsput(it, cidref_loc(c), T.Absent)
+            fsput(it, T.mark(cidref_loc(c)), T.Absent)
+            if kind == "bound":
+                fsput(it, obj_loc(c), T.Absent)
+                fsput(it, T.mark(obj_loc(c)), T.Absent)
+    clear_meta_dir(it, self, p)
+    return NONE
+
+
+def _cid_case(it):
+    s = make_self(it)
+    c = sym_str("cid")
+    it.ctx.assume(T.ishex(c.term))
+    return [s, c]
+
+
+@contract("FileHashStore._delete_object_only", cases={"any cid": _cid_case},
+          pre=lambda it, self, cid: [(n, f) for n, f in refs.acquire_pre("cid")(it, self, cid=cid)]
+          + [("cid-is-digest", T.ishex(str_of(it, cid)))],
+          props={"*": ("C04", "C06", "C08")})
+def _delete_object_only(it, self, cid):
+    c = str_of(it, cid)
+    if it.ctx.branch(T.present(C_state(it, c))):
+        return NONE
+    if it.ctx.branch(T.is_Absent(fsget(it, obj_loc(c)))):
+        raise_("FileNotFoundError")
+    fsput(it, obj_loc(c), T.Absent)
+    return NONE
+
+
+def stored_object_metadata(it, self, name="om"):
+    """An ObjectMetadata as store_object returns it for content present in the store."""
+    content = z3.String(name + "_content")
+    alg = self.f["algorithm"].term
+    c = T.Hd(alg, content)
+    it.ctx.assume(fsget(it, obj_loc(c)) == T.Data(content))
+    hd = digest_map(it, NONE, NONE, content)
+    return VObj("ObjectMetadata", pid=VStr("HashStoreNoPid"), cid=VStr(c),
+                obj_size=VInt(z3.Length(content)), hex_digests=hd)
+
+
+def _dii_cases():
+    def stored(it):
+        s = make_self(it)
+        return [s, stored_object_metadata(it, s), opt_str(it, "checksum"),
+                opt_str(it, "checksum_algorithm"),
+                dyn(it, "expected_file_size", (T_NONE, T_INT, T_STR, T_OTHER))]
+
+    def none(it):
+        s = make_self(it)
+        return [s, NONE, opt_str(it, "checksum"), opt_str(it, "checksum_algorithm"),
+                dyn(it, "expected_file_size", (T_NONE, T_INT, T_STR, T_OTHER))]
+
+    def other(it):
+        s = make_self(it)
+        return [s, dyn(it, "object_metadata", (T_OTHER, T_STR)), opt_str(it, "checksum"),
+                opt_str(it, "checksum_algorithm"),
+                dyn(it, "expected_file_size", (T_NONE, T_INT, T_STR, T_OTHER))]
+    return {"stored object": stored, "None": none, "not ObjectMetadata": other}
+
+
+@contract("FileHashStore.delete_if_invalid_object", cases=_dii_cases(),
+          pre=lambda it, self, object_metadata, checksum, checksum_algorithm, expected_file_size: [
+              ("own-cid-empty", it.ctx.st.own["cid"] == T.NOLOCKS),
+              ("no-lock-held-by-caller", z3.BoolVal(not it.ctx.st.held))],
+          props={"*": ("C04", "C06", "C17", "C19")})
+def delete_if_invalid_object(it, self, object_metadata, checksum, checksum_algorithm,
+                             expected_file_size):
+    checkers._check_string(it, checksum, VStr("checksum"))
+    checkers._check_string(it, checksum_algorithm, VStr("checksum_algorithm"))
+    checkers._check_integer(it, expected_file_size)
+    if not (isinstance(object_metadata, VObj) and object_metadata.cls == "ObjectMetadata"):
+        raise_("ValueError")
+    om = object_metadata
+    ca = clean_of(it, VStr(str_of(it, checksum_algorithm)))
+    c = om.f["cid"].term
+    content = T.as_text(fsget(it, obj_loc(c)))
+    v = verdict(it, self, checksum, ca, om.f["hex_digests"], content, om.f["obj_size"].term,
+                expected_file_size)
+    if v is not None:
+        _delete_object_only(it, self, VStr(c))
+        raise_(v)
+    return NONE
